@@ -262,7 +262,7 @@ pub fn scope(name: &str) -> Scope {
         // branches (composite leaves reach shapes that would need 7-9 kernel nodes)
         "ALT" => Scope::new(
             "ALT",
-            &["a", "b", "(?:a|b?)", "(?:a?|b)", "(?:ab|a?)", "(?:a|ab)", "(?:a|)", "(?:|a)", "(?:^|a)", "(?:a|$)", "(a)", "(a|b?)", "(?:ab)"],
+            &["a", "b", "(?:a|b?)", "(?:a?|b)", "(?:ab|a?)", "(?:a|ab)", "(?:a|)", "(?:|a)", "(?:^|a)", "(?:a|$)", "(a)", "(a|b?)", "(?:ab)", "(?:^a?)", "(?:a?$)", "(?:^$)"],
             &Q_KERNEL,
             false,
             &['a', 'b'],
